@@ -436,6 +436,55 @@ theorem crReadAll_caps_independent (σ0 : σ) (n : Nat) (cs : List Bytes) (e : R
   obtain ⟨b1, b2, _⟩ := crReadAll_eq next σ0 n cs e htr hne caps' hcaps' inner' hi' fuel' hf'
   exact ⟨by rw [a1, b1], by rw [a2, b2]⟩
 
+/-! ### bounded buffering: one pending chunk -/
+
+/-- **chunkReader holds at most one chunk.**  Its only buffer is `prevChunk`;
+    after a `Read` (any chunker, any buffer size, any accumulator) what is left
+    pending is a suffix of what was pending before, or a suffix of ONE chunk
+    that `getNextChunk` returned during this call — earlier chunks were handed
+    out completely before the next one was fetched. -/
+theorem crRead_one_chunk (cap : Nat) : ∀ (f : Nat) (s : CRState σ) (acc : Bytes),
+    (crRead next cap f s acc).2.2.prevChunk <:+ s.prevChunk ∨
+    ∃ σ1, (crRead next cap f s acc).2.2.prevChunk <:+ (next σ1).1 := by
+  intro f
+  induction f with
+  | zero => intro s acc; left; simp [crRead]
+  | succ f ih =>
+    intro s acc
+    by_cases hfit : s.prevChunk.length ≤ cap - acc.length
+    · cases he : s.prevErr with
+      | some e =>
+        rw [crRead_succ_err next cap f s acc e hfit he]
+        left; exact List.nil_suffix
+      | none =>
+        rcases hn : next s.chunker with ⟨c, eo, s'⟩
+        by_cases hnp : c ≠ [] ∨ eo ≠ none
+        · rw [crRead_succ_fetch next cap f s acc c eo s' hfit he hn hnp]
+          right
+          rcases ih { chunker := s', prevChunk := c, prevErr := eo } (acc ++ s.prevChunk) with h | ⟨σ1, h⟩
+          · exact ⟨s.chunker, by rw [hn]; exact h⟩
+          · exact ⟨σ1, h⟩
+        · have hc : c = [] := by
+            by_cases hc : c = []
+            · exact hc
+            · exact absurd (Or.inl hc) hnp
+          have heo : eo = none := by
+            by_cases heo : eo = none
+            · exact heo
+            · exact absurd (Or.inr heo) hnp
+          subst hc heo
+          rw [crRead_succ_panic next cap f s acc s' hfit he hn]
+          left; exact List.nil_suffix
+    · rw [crRead_succ_nofit next cap f s acc (by omega)]
+      left; exact List.drop_suffix _ _
+
+/-- hence the pending bytes never exceed a bound on the chunker's chunks -/
+theorem crRead_pending_le (B : Nat) (hB : ∀ σ1, (next σ1).1.length ≤ B) (cap f : Nat) (s : CRState σ) (acc : Bytes)
+    (hs : s.prevChunk.length ≤ B) : (crRead next cap f s acc).2.2.prevChunk.length ≤ B := by
+  rcases crRead_one_chunk next cap f s acc with h | ⟨σ1, h⟩
+  · exact Nat.le_trans h.length_le hs
+  · exact Nat.le_trans h.length_le (hB σ1)
+
 end
 
 /-! ### instances on a small scripted chunker -/
